@@ -332,6 +332,13 @@ impl UntypedHandle {
     pub(crate) fn write(&self, asset: CacheEntry) {
         self.inner.write(asset);
     }
+
+    /// Returns `false` for entries that hot-reloading must leave alone.
+    #[cfg(feature = "hot-reloading")]
+    #[inline]
+    pub(crate) fn is_reloadable(&self) -> bool {
+        self.either(|| false, |_| true)
+    }
 }
 
 impl fmt::Debug for UntypedHandle {
